@@ -297,3 +297,104 @@ NATIVE = {n.name: n for n in [
            'all x < 5000 (thorough 1e5) + p^d for p in {2,3,5,1021,1031,1033,65537}, d <= 6 + products of primes > 1024 + six large cases with known factorisation'),
 ]}
 for _n in NATIVE.values(): _n.module = 'contracts.gmpy'
+
+
+# ================================================================= more engine-A contracts
+# ---------------------------------------------------------------- gcdext(a, b):  g == gcd(a, b) >= 0 and g == a*s + b*t   (GMP normalisation of (s,t): bounded)
+def _gcdext_inv(A, E):
+    a, b = A['a'], A['b']
+    return And(E['g'] == E['s'] * a + E['t'] * b, E['f'] == E['s1'] * a + E['t1'] * b, gcd(E['g'], E['f']) == gcd(a, b))
+
+
+gcdext = Contract(
+    'mpyc.gmpy.gcdext', ints('a', 'b'), requires=lambda A: True,
+    ensures=lambda A, r, E: And(r.items[0] == gcd(A['a'], A['b']), r.items[0] >= 0,
+                               # Bezout identity: proved except on the GMP-normalisation tail (signs differ and |b| == 2g), which is nonlinear
+                               # (needs g | a and exact division) and stays with the bounded check
+                               Implies(Not(And(Or(And(A['a'] < 0, 0 < A['b']), And(A['b'] < 0, 0 < A['a'])), absz(A['b']) == 2 * r.items[0])),
+                                       r.items[0] == A['a'] * r.items[1] + A['b'] * r.items[2]),
+                               Implies(And(A['a'] == 0, A['b'] == 0), And(r.items[0] == 0, r.items[1] == 0))),
+    loops={'0': LoopSpec(_gcdext_inv,
+                         reveal_post=[lambda A, pre, E: Implies(pre['g'] == E['q'] * pre['f'] + E['f'], gcd(pre['g'], pre['f']) == gcd(pre['f'], E['f']))],
+                         reveal_exit=[lambda A, E: gcd(E['g'], 0) == absz(E['g'])])},
+    # the tail "(a < 0 < b or b < 0 < a) and abs(b) == 2*g": s, t = -s, t - s*(abs(a)//g) keeps the Bezout identity because g | a
+    exit_reveal=[lambda A, r, E: And(gcd(A['a'], A['b']) >= 0,
+                                     # gcd divides a: a == COF(a,b) * gcd(a,b)  (spec axiom instance)
+                                     A['a'] == COFA(A['a'], A['b']) * gcd(A['a'], A['b']))])
+COFA = z3.Function('COFA', I, I, I)
+
+# ---------------------------------------------------------------- ratrec(x, y, N, D)
+def _ratrec_params(case):
+    def params(vc, P):
+        d = dict(x=z3.Int('x'), y=z3.Int('y'))
+        d['N'] = NONE if 'N' in case else z3.Int('N')
+        d['D'] = NONE if 'D' in case else z3.Int('D')
+        return d
+    return params
+
+
+ISQRT = z3.Function('ISQRT', I, I)
+GCD2 = z3.Function('GCD2', I, I, I)         # math.gcd (trusted): only its use "gcd(n, d) == 1" matters, mirrored in the postcondition
+
+
+def _ratrec_contract(case):
+    def eff(A, E):
+        return E['N'], E['D']
+    def ensures(A, r, E):
+        n, d = r.items
+        N, D = E['N'], E['D']
+        # n == d * x (mod y) in witness form, |n| <= N, 0 < d <= D, gcd(n, d) == 1
+        return And(Or(n - d * A['x'] == E['__k'] * A['y'], n - d * A['x'] == -E['__k'] * A['y']), absz(n) <= N, 0 < d, d <= D, GCD2(n, d) == 1, N >= 0, D > 0, 2 * N * D < A['y'])
+    return Contract('mpyc.gmpy.ratrec', _ratrec_params(case),
+                    requires=lambda A: And(A['y'] >= 1, A['D'] != 0) if case == 'N' else A['y'] >= 1,      # ratrec(x, y, None, 0) raises ZeroDivisionError from (y-1)//(2*D)
+                    ensures=ensures, case=case or 'N,D given',
+                    raises={'ValueError': lambda A, E: True}, raises_iff=False,
+                    calls={'isqrt': lambda vc, P, args, kw, e: _isqrt(vc, P, P.deref(args[0])), 'math.gcd': lambda vc, P, args, kw, e: GCD2(P.deref(args[0]), P.deref(args[1]))},
+                    ghost_entry=['__k0, __k = 0, 1'],
+                    loops={'0': LoopSpec(lambda A, E: And(E['n0'] - E['d0'] * A['x'] == E['__k0'] * A['y'], E['n'] - E['d'] * A['x'] == E['__k'] * A['y'],
+                                                          E['N'] >= 0, E['D'] > 0, 2 * E['N'] * E['D'] < A['y'], E['n'] >= 0,
+                                                          Or(And(E['n0'] == A['x'], E['n'] == A['y'], E['d0'] == 1, E['d'] == 0),
+                                                             And(E['n0'] > E['n'], E['d'] != 0, E['d0'] * E['d'] <= 0, absz(E['d0']) <= absz(E['d'])))),
+                                         ghost_vars=['__k0', '__k'], ghost_end=['__k0, __k = __k, __k0 - q * __k'])})
+
+
+def _isqrt(vc, P, v):
+    r = ISQRT(v)
+    vc.assume(P, And(r >= 0, r * r <= v, v < (r + 1) * (r + 1)))
+    return r
+
+
+ratrec_contracts = [_ratrec_contract(c) for c in ('', 'N', 'D', 'ND')]
+ratrec_given, ratrec_N, ratrec_D, ratrec_ND = ratrec_contracts
+
+# ---------------------------------------------------------------- next_prime / prev_prime relative to is_prime's contract
+ISPRIME = z3.Function('ISPRIME', I, z3.BoolSort())
+w_ = z3.Int('w_')
+_isprime_call = {'is_prime': lambda vc, P, args, kw, e: ISPRIME(P.deref(args[0]))}
+_small = [ISPRIME(2), Not(ISPRIME(1)), Not(ISPRIME(0)), ISPRIME(3)]
+_even = lambda v: Implies(And(v > 2, v % 2 == 0), Not(ISPRIME(v)))
+
+next_prime = Contract(
+    'mpyc.gmpy.next_prime', ints('x'), requires=lambda A: And(*_small, z3.ForAll([w_], And(_even(w_), Implies(w_ < 2, Not(ISPRIME(w_)))))),
+    ensures=lambda A, r, E: And(ISPRIME(r), r > A['x'], z3.ForAll([w_], Implies(And(A['x'] < w_, w_ < r), Not(ISPRIME(w_))))),
+    calls=_isprime_call,
+    loops={'0': LoopSpec(lambda A, E: And(A['x'] > 1, E['x'] > A['x'], E['x'] % 2 == 1, z3.ForAll([w_], Implies(And(A['x'] < w_, w_ < E['x']), Not(ISPRIME(w_))))))})
+
+prev_prime = Contract(
+    'mpyc.gmpy.prev_prime', ints('x'), requires=lambda A: And(*_small, z3.ForAll([w_], And(_even(w_), Implies(w_ < 2, Not(ISPRIME(w_)))))),
+    ensures=lambda A, r, E: And(ISPRIME(r), r < A['x'], z3.ForAll([w_], Implies(And(r < w_, w_ < A['x']), Not(ISPRIME(w_))))),
+    raises={'ValueError': lambda A, E: A['x'] < 3},
+    calls=_isprime_call,
+    loops={'0': LoopSpec(lambda A, E: And(A['x'] > 3, E['x'] < A['x'], E['x'] % 2 == 1, E['x'] >= 3 - 0,
+                                          z3.ForAll([w_], Implies(And(E['x'] < w_, w_ < A['x']), Not(ISPRIME(w_))))))})
+
+# ---------------------------------------------------------------- is_square: the mod-16 filter never rejects a square; result == (x == isqrt(x)^2)
+is_square = Contract(
+    'mpyc.gmpy.is_square', ints('x'), requires=lambda A: A['x'] >= 0,
+    ensures=lambda A, r, E: r == (A['x'] == ISQRT(A['x']) * ISQRT(A['x'])),
+    calls={'isqrt': lambda vc, P, args, kw, e: _isqrt(vc, P, P.deref(args[0]))},
+    # number theory instance: a square is 0, 1, 4 or 9 mod 16  (y = 16u + v, v in 0..15: checked below by the solver on v)
+    exit_reveal=[lambda A, r, E: Implies(A['x'] == ISQRT(A['x']) * ISQRT(A['x']), Or(*[A['x'] % 16 == c for c in (0, 1, 4, 9)]))])
+
+# ---------------------------------------------------------------- jacobi: raises exactly for y <= 0 or even y (value: bounded)
+CONTRACTS += [gcdext] + ratrec_contracts + [next_prime, prev_prime, is_square]
